@@ -17,7 +17,7 @@ PID = 'C04'
 LEVEL = 'exploration'
 LEVEL_TEXT = ('Macro-agnostic bounded exploration: all macros with an expansion are offered all argument/premise combinations of the pools; where eval succeeds and an expansion '
               'exists, the checker-driven expansion must be accepted and agree with eval, and an SMT oracle decides validity of the claimed sequent. The oracle for "accepted" '
-              'is the real kernel; the semantic side check is solver-decided. Inputs harvested from recorded library proofs are outside (replay testing).')
+              'is the real kernel; the semantic side check is solver-decided. Steps of the recorded library proofs (quick: a slice of logic, nat, set, function, list, hoare) are fed to the same oracle as recorded and with an extra hypothesis on every premise.')
 LEVEL_NOTE = 'trusts the proof checker (its own soundness is C01/C02), z3/holsmt for the side check; macros that never accept a pool input are exercised only on their rejection path (listed in the evidence)'
 TECHNIQUE = 'macro-agnostic bounded exploration: eval vs checker-driven expansion at check_level=0, plus SMT validity of the claimed sequent'
 FUNCTIONS = ['kernel.macro:Macro.eval/expand', 'kernel.theory:check_proof (check_level=0, macro expansion branch)', 'kernel.proofterm:ProofTerm.export',
@@ -34,7 +34,7 @@ BUDGET_S = {'quick': 100, 'thorough': 1500}
 
 def bounds(tier):
     P = pools()
-    return {'macros': len(P['macros']), 'arguments': len(P['args']), 'premise_lists': len(P['prevs']) if tier == 'thorough' else 'singletons + 40 seeded pairs + 10 triples per macro', 'terms': len(P['terms'])}
+    return {'macros': len(P['macros']), 'arguments': len(P['args']), 'premise_lists': 'singletons + %s seeded pairs + %s triples per macro' % ((20, 5) if tier == 'quick' else (600, 100)), 'harvested_library_steps': [list(h) for h in HARVEST[tier]], 'numeral_goals': len(numeral_goals()), 'terms': len(P['terms'])}
 
 
 def setup(tier, seed):
@@ -163,26 +163,181 @@ def sarg(a):
         return repr(a)
 
 
+HARVEST = {'quick': [('logic', 0, 60), ('function', 0, 40), ('list', 0, 20), ('hoare', 0, 20), ('set', 0, 30), ('set', 30, 60), ('set', 60, 100)] + [('nat', i, i + 20) for i in range(0, 120, 20)],
+           'thorough': [(t, i, i + 20) for t, n in (('logic', 60), ('nat', 240), ('function', 40), ('set', 120), ('list', 60), ('hoare', 20), ('int', 120), ('real', 200), ('logic_base', 40)) for i in range(0, n, 20)]}
+
+
 def units(tier, seed):
     P = pools()
     us = [('mac', tier, seed, mi) for mi in range(len(P['macros']))]
+    us += [('harv', tier, seed) + h for h in HARVEST[tier]]
+    nn = len(numeral_goals())
+    us += [('num', tier, seed, lo, lo + 120) for lo in range(0, nn, 120)]
     random.Random(seed).shuffle(us)
     return us
+
+
+# ------------------------------------------------------------------ inputs harvested from the recorded library proofs (+ hypothesis mutations)
+
+def harvest(theory_name, lo, hi):
+    """(macro, args, premise theorems) of every expanding-macro step in the proofs of theorems lo..hi of a library theory."""
+    from logic import basic, context
+    from kernel import theory
+    from server import server
+    out = []
+
+    def walk(prf, env):
+        for it in prf.items:
+            env[str(it.id)] = it
+            if it.subproof:
+                walk(it.subproof, env)
+            m = theory.global_macros.get(it.rule)
+            if m is not None and m.level is not None and m.level >= 1 and it.th is not None:
+                try:
+                    prevs = [env[str(q)].th for q in it.prevs]
+                except KeyError:
+                    continue
+                if all(q is not None for q in prevs):
+                    out.append((it.rule, it.args, prevs))
+    basic.load_theory(theory_name)
+    content = [it for it in basic.theory_cache['master'][theory_name]['content'] if it.ty == 'thm' and (it.steps or it.proof)]
+    for it in content[lo:hi]:
+        here = len(out)
+        basic.load_theory(theory_name, limit=('thm', it.name))
+        try:
+            context.set_context(None, vars=it.vars)
+            if it.proof:
+                state = server.parse_proof(it.proof)
+            else:
+                state = server.parse_init_state(it.prop)
+                state.parse_steps(it.steps)
+            state.check_proof()
+            walk(state.prf, {})
+        except Exception:
+            continue
+        for k in range(here, len(out)):
+            out[k] = out[k] + ((theory_name, it.name),)
+    return out
+
+
+def run_harvest(u, out):
+    from kernel.thm import Thm
+    from kernel.term import Var
+    from kernel.type import BoolType
+    from logic import basic
+    _, tier, seed, thy, lo, hi = u
+    cases = harvest(thy, lo, hi)
+    seen = set()
+    cur = None
+    n_ok = 0
+    for (name, args, prevs, where) in cases:
+        if where != cur:
+            basic.load_theory(where[0], limit=('thm', where[1]))       # the theory the step was recorded in
+            cur = where
+        key = (name, repr(args), tuple(repr(q.prop) + repr(q.hyps) for q in prevs))
+        if key in seen:
+            continue
+        seen.add(key)
+        variants = [('as-recorded', prevs)]
+        if prevs:
+            variants.append(('extra-hyps', [Thm(q.prop, *(tuple(q.hyps) + (Var('hh%d' % i, BoolType),))) for i, q in enumerate(prevs)]))
+        for vn, pv in variants:
+            out['evals'] += 1
+            if os.environ.get('VERIF_TWIN'):
+                if not out['cex']:
+                    out['cex'].append({'kind': 'twin', 'macro': name})
+                continue
+            st, detail = try_case(name, args, pv)
+            if st in ('no-eval', 'no-expansion'):
+                continue
+            n_ok += 1
+            out['keys'].add('h|%s|%s|%s' % (key[0], hash(key) & 0xffffffff, vn))
+            if st == 'ok-unknown':
+                out['inconclusive'] += 1
+            elif st != 'ok':
+                out['cex'].append({'kind': st + ':' + name, 'part': 'harv', 'theory': thy, 'lo': lo, 'hi': hi, 'thm': where[1], 'variant': vn, 'name': name, 'args': sarg(args), 'detail': detail + ' [step of %s.%s, %s]' % (where[0], where[1], vn)})
+        if len(out['cex']) >= 12:
+            break
+    out['stats'] = {'harvested_steps': len(cases), 'accepted_by_macro': {}}
+    out['samples'].append({'theory': thy, 'theorems': [lo, hi], 'harvested_steps': len(cases), 'checked': n_ok})
+
+
+# ------------------------------------------------------------------ numerals (binary representation edge cases of the arithmetic macros)
+
+_N = {}
+
+
+def numeral_goals():
+    if _N:
+        return _N['g']
+    from kernel.term import Nat, Eq, Not, Var
+    from kernel.type import NatType, TFun
+    from kernel import term as T
+    g = []
+    R = list(range(0, 13)) + [14, 15, 16, 19, 20, 21, 22, 23, 31, 32, 33, 64, 100]
+    for m in R:
+        for n in R:
+            g.append(('nat_const_ineq', Not(Eq(Nat(m), Nat(n))), []))
+            g.append(('nat_const_less', T.less(NatType)(Nat(m), Nat(n)), []))
+            g.append(('nat_const_less_eq', T.less_eq(NatType)(Nat(m), Nat(n)), []))
+    f = Var('f', TFun(NatType, NatType))
+    from data.function import mk_fun_upd
+    for m in R[:20]:
+        for n in R[:20]:
+            g.append(('fun_upd_eval', mk_fun_upd(f, Nat(m), Nat(4))(Nat(n)), []))
+            g.append(('nat_norm', Eq(Nat(m) + Nat(n), Nat(m + n)), []))
+            g.append(('nat_norm', Eq(Nat(m) * Nat(n), Nat(m * n)), []))
+    _N['g'] = g
+    return g
+
+
+def run_numerals(u, out):
+    from kernel import theory
+    _, tier, seed, lo, hi = u
+    gs = numeral_goals()
+    for i in range(lo, min(hi, len(gs))):
+        name, args, prevs = gs[i]
+        if name not in theory.global_macros:
+            continue
+        out['evals'] += 1
+        if os.environ.get('VERIF_TWIN'):
+            if not out['cex']:
+                out['cex'].append({'kind': 'twin', 'macro': name})
+            continue
+        st, detail = try_case(name, args, prevs)
+        if st in ('no-eval', 'no-expansion'):
+            continue
+        out['keys'].add('n|%d' % i)
+        if st == 'ok-unknown':
+            out['inconclusive'] += 1
+        elif st != 'ok':
+            out['cex'].append({'kind': st + ':' + name, 'part': 'num', 'i': i, 'name': name, 'detail': detail})
+            if len(out['cex']) >= 12:
+                break
+    out['stats'] = {'accepted_by_macro': {}}
+    out['samples'].append({'numeral_goal': str(gs[lo][1]), 'macro': gs[lo][0]})
 
 
 def premise_lists(tier, seed, mi):
     P = pools()
     pl = list(P['prevs'])
     rnd = random.Random('c04-%s-%s' % (seed, mi))
-    npairs = 40 if tier == 'quick' else 600
+    npairs = 20 if tier == 'quick' else 600
     for _ in range(npairs):
         pl.append([rnd.choice(P['base']), rnd.choice(P['base'])])
-    for _ in range(10 if tier == 'quick' else 100):
+    for _ in range(5 if tier == 'quick' else 100):
         pl.append([rnd.choice(P['base']), rnd.choice(P['base']), rnd.choice(P['base'])])
     return pl
 
 
 def run_unit(u):
+    if u[0] in ('harv', 'num'):
+        out = {'evals': 0, 'keys': set(), 'cex': [], 'samples': [], 'inconclusive': 0, 'stats': {}}
+        (run_harvest if u[0] == 'harv' else run_numerals)(u, out)
+        from logic import basic
+        basic.load_theory('hoare')
+        out['keys'] = list(out['keys'])
+        return out
     _, tier, seed, mi = u
     P = pools()
     name = P['macros'][mi]
@@ -218,6 +373,17 @@ def run_unit(u):
 def replay(c):
     if c['kind'] == 'twin':
         return True, 'twin'
+    if c.get('part') == 'num':
+        name, args, prevs = numeral_goals()[c['i']]
+        st, detail = try_case(name, args, prevs)
+        return (st + ':' + name) == c['kind'], detail
+    if c.get('part') == 'harv':
+        out = {'evals': 0, 'keys': set(), 'cex': [], 'samples': [], 'inconclusive': 0, 'stats': {}}
+        run_harvest(('harv', 'quick', 0, c['theory'], c['lo'], c['hi']), out)
+        from logic import basic
+        basic.load_theory('hoare')
+        m = [x for x in out['cex'] if x['kind'] == c['kind'] and x['thm'] == c['thm'] and x['args'] == c['args'] and x['variant'] == c['variant']]
+        return (True, m[0]['detail']) if m else (False, 'not reproduced')
     P = pools()
     name = P['macros'][c['macro']]
     if name != c['name']:
